@@ -133,9 +133,10 @@ def run_plan(plan: dict, replay=None) -> dict:
         tot["instances"] += 1
         for k in ("scheduled", "masked", "extra", "required", "pruned_vertex", "ragged_padding"):
             tot[k] += stats[k]
+        problems.sort(key=lambda p: p[0] == "required-vertex-only-scheduled-beyond-horizon")  # the known finding D12 never hides another problem
         for p in problems[:3]:
             viol.append(dict(clause="c07-" + p[0], signature="c07-" + p[0], compile=cc, source=plan["source"], detail=[str(x)[:200] for x in p[1:]]))
-        if problems:
+        if any(p[0] != "required-vertex-only-scheduled-beyond-horizon" for p in problems):
             break
         # oracle B (dynamic): one episode, ordered trace
         e = plan["dyn_episode"] % len(positions)
@@ -155,6 +156,7 @@ def run_plan(plan: dict, replay=None) -> dict:
         if bad is not None:
             viol.append(dict(clause="c07-dynamic-" + bad[0], signature="c07-dyn-" + bad[0], compile=cc, source=plan["source"], episode=e, detail=str(bad[1])[:600]))
             break
+    viol.sort(key=lambda x: x["clause"] == "c07-required-vertex-only-scheduled-beyond-horizon")
     jax.clear_caches()
     if ro is not None:
         res.update(common.summarise(ro, plan, extra_sums=tot))
